@@ -3,13 +3,13 @@
   temp+rename updates do not.
 -/
 import SyModel.Hardlink.Update
+import SyModel.Lemmas.Hardlink
 namespace SyModel.Hardlink
 
 theorem updateSmall_ino (d : Dst) (p c q : Nat) :
     ((updateSmall d p c) q).map File.ino = (d q).map File.ino := by
   unfold updateSmall
-  cases hp : d p <;> cases hq : d q <;> simp
-  split <;> exact ⟨_, rfl, rfl⟩
+  exact wt_ino d p c q
 
 theorem sameIno_iff_ino (d : Dst) (p q : Nat) :
     sameIno d p q ↔ ∃ i, (d p).map File.ino = some i ∧ (d q).map File.ino = some i := by
@@ -29,7 +29,7 @@ theorem updateSmall_sameIno (d : Dst) (p c q r : Nat) :
 theorem updateSmall_content (d : Dst) (p c q : Nat) (h : sameIno d p q) :
     ∃ f, updateSmall d p c q = some f ∧ f.content = c := by
   obtain ⟨f, g, hf, hg, he⟩ := h
-  unfold updateSmall
+  unfold updateSmall writeThrough
   simp [hf, hg, he]
 
 end SyModel.Hardlink
